@@ -4,7 +4,8 @@ CONSTANT Tier
 VARIABLES kind, val, done
 (* boot orders: all 65536 numbers, 8 per order (block b covers 8b .. 8b+7), plus short orders *)
 Block(b) == [k \in 1..8 |-> 8 * b + k - 1]
-Shorts == {<<>>, <<0>>, <<26>>, <<65535>>, <<1, 26, 3>>, <<43981, 10, 171, 2748>>, <<26, 26>>}
+Shorts == {<<>>, <<0>>, <<26>>, <<65535>>, <<1, 26, 3>>, <<43981, 10, 171, 2748>>, <<26, 26>>,
+           [k \in 1..33000 |-> (k * 7) % 65536]}      \* a boot order of 33 000 entries (66 000 bytes: more than 64 KiB)
 Pci == {[kind |-> "pci", fn |-> f, dev |-> d] : f \in {0, 255}, d \in {0, 31}}
 Acpi == {[kind |-> "acpi", hid |-> h, uid |-> u] : h \in {<<208, 65, 3, 10>>, <<0, 0, 0, 0>>}, u \in {<<0, 0, 0, 0>>, <<255, 255, 255, 255>>}}
 (* partition format (MBR / GPT / other) and signature type (none / 32-bit / GUID) are independent fields *)
@@ -28,7 +29,7 @@ Init == /\ done = FALSE
            \/ kind = "order" /\ val \in Shorts
            \/ kind = "option" /\ \E ns \in Seqs, d \in Descs, a \in {1, 7} : val = [attrs |-> a, desc |-> d, nodes |-> ns]
 Next == ~done /\ done' = TRUE /\ UNCHANGED <<kind, val>>
-Sound == kind = "order" => OrderResolves(val)
+Sound == (kind = "order" /\ Len(val) <= 64) => OrderResolves(val)      \* (the composition statement is evaluated on the short orders; it is quadratic in the length)
 Emit == done => IF kind = "order"
                 THEN PrintT(ToJson([kind |-> "order", nums |-> val, bytes |-> OrderBytes(val), names |-> [k \in 1..Len(val) |-> Hex4(val[k])]]))
                 ELSE PrintT(ToJson([kind |-> "option", attrs |-> val.attrs, desc |-> val.desc, descunits |-> Encode(val.desc), nodes |-> val.nodes,
